@@ -236,4 +236,151 @@ def _vanishes(ast, name, env):
             return False
 
 
-ARMS = [EvalNodeArm(), CodegenArm()]
+# ----------------------------------------------------------------------------------------------------------------------
+# index helpers
+# ----------------------------------------------------------------------------------------------------------------------
+#: name -> (template with {v} {A} {j} {k} {c}, numpy meaning, result kind: scalar | vec_n (len of v) | row (A.shape[1]) | col)
+INDEX_FORMS = {
+    "index": ("index({v}, {k})", lambda v, A, j, k, c: v[k], "scalar"),
+    "index_2d": ("index_2d({A}, {j}, {k})", lambda v, A, j, k, c: A[j, k], "scalar"),
+    "index_mix": ("{c}*index({v}, {k}) - index_2d({A}, {j}, {k})/2.0", lambda v, A, j, k, c: c * v[k] - A[j, k] / 2.0, "scalar"),
+    "index_twice": ("index({v}, {k})*index({v}, {j}) + {c}", lambda v, A, j, k, c: v[k] * v[j] + c, "scalar"),
+    "index_row": ("index({A}, {j})", lambda v, A, j, k, c: A[j], "row"),
+    "index_axis0": ("index_axis({A}, {j}, 0)", lambda v, A, j, k, c: A[j, :], "row"),
+    "index_axis1": ("index_axis({A}, {k}, 1)", lambda v, A, j, k, c: A[:, k], "col"),
+    "index_range": ("index_range({v}, {j}, {k})", lambda v, A, j, k, c: v[j:k], "range"),
+    "index_nested": ("index(index({A}, {j}), {k})", lambda v, A, j, k, c: A[j][k], "scalar"),
+    "index_of_axis": ("index(index_axis({A}, {k}, 1), {j})", lambda v, A, j, k, c: A[:, k][j], "scalar"),
+}
+
+
+def _decl(val, dtype="float64", vtype="constant"):
+    val = np.asarray(val)
+    return {"vtype": vtype, "value": val if val.shape else val.item(), "shape": val.shape, "dtype": dtype}
+
+
+class IndexArm(Arm):
+    name = "index"
+    budget = {"quick": 400, "thorough": 5000}
+    min_per_shard = 10
+    required_labels = tuple("form:" + f for f in ("index", "index_2d", "index_mix", "index_twice", "index_row", "index_axis0"))
+
+    def strategy(self, ctx):
+        @st.composite
+        def case(draw):
+            n = draw(st.integers(3, 5))
+            m = draw(st.integers(2, 4))
+            form = draw(st.sampled_from(sorted(INDEX_FORMS)))
+            names = draw(st.sampled_from([["v", "A", "j", "k", "c"], ["r", "rr", "r_in", "r_in0", "k"],
+                                          ["x", "xs", "x_v1", "m_in", "m_in2"], ["ab", "a", "abc", "w", "u"]]))
+            j = draw(st.integers(0, min(m, n) - 2))
+            k = draw(st.integers(j + 1, min(m, n) - 1))     # j < k, both valid for every axis used above
+            j2 = draw(st.integers(0, min(m, n) - 2))
+            k2 = draw(st.integers(j2 + 1, min(m, n) - 1))
+            return {"form": form, "n": n, "m": m, "names": names, "j": j, "k": k, "j2": j2, "k2": k2,
+                    "literal": draw(st.sampled_from([False, False, True])), "space": draw(st.integers(0, 2)),
+                    "notation": draw(st.integers(0, 1)), "path": draw(st.sampled_from(["codegen", "codegen", "eval_node"]))}
+        return case()
+
+    def run(self, case, ctx):
+        from .. import isolate
+        res = CaseResult()
+        ex = excluded_by("C05", case, ctx)
+        if ex:
+            res.excluded = ex
+            return res
+        tmpl, meaning, kind = INDEX_FORMS[case["form"]]
+        n, m = case["n"], case["m"]
+        vn, An, jn, kn, cn = case["names"]
+        v = np.array([round(0.31 + 0.47 * i * (-1) ** i, 3) for i in range(max(n, m))])
+        A = np.array([[round(0.05 + 0.1 * (r * max(n, m) + c_), 3) for c_ in range(max(n, m))] for r in range(max(n, m))])
+        c = 1.5
+        j, k = case["j"], case["k"]
+        lit = case["literal"]
+        text = tmpl.format(v=vn, A=An, j=(str(j) if lit else jn), k=(str(k) if lit else kn), c=cn)
+        if case["space"] == 1:
+            text = text.replace(", ", ",")
+        elif case["space"] == 2:
+            text = text.replace("(", "( ").replace(")", " )")
+        want0 = np.asarray(meaning(v, A, j, k, c), dtype=float)
+        res.labels = ["form:" + case["form"], "path:" + case["path"]] + (["literal_index"] if lit else ["parameter_index"])
+        res.nontrivial = True
+        isolate.reset(remove_files=False)
+        if case["path"] == "eval_node":
+            from pyrates.backend.computegraph import ComputeGraph
+            from pyrates.backend.parser import ExpressionParser
+            args = {vn: _decl(v), An: _decl(A), cn: _decl(c), jn: _decl(j, "int32"), kn: _decl(k, "int32"),
+                    "pvres": {"vtype": "variable", "value": np.zeros(want0.shape) if want0.shape else 0.0, "dtype": "float64",
+                              "shape": want0.shape}}
+            try:
+                with warnings.catch_warnings():
+                    warnings.simplefilter("ignore")
+                    cg = ComputeGraph(backend="default", float_precision="float64")
+                    ExpressionParser(expr_str=f"pvres = {text}", args=args, cg=cg).parse_expr()
+                    got = np.asarray(cg.eval_node(cg.var_updates["non-DEs"]["pvres"]), dtype=float)
+            except HarnessError:
+                raise
+            except Exception as e:
+                res.violate(exc_bucket(f"eval-raises:{case['form']}", e), f"'{text}' (j={j}, k={k}): {short_exc(e)}")
+                return res
+            if got.shape != want0.shape or np.max(np.abs(got - want0)) > 1e-12:
+                res.violate(f"wrong-value:eval_node:{case['form']}", f"'{text}' (j={j}, k={k}): eval_node gives {got.tolist()}, "
+                                                                     f"NumPy indexing says {want0.tolist()}")
+            return res
+        from pyrates import CircuitTemplate, NodeTemplate, OperatorTemplate
+        q0 = np.full(want0.shape, 0.25) if want0.shape else 0.25
+        lhs = "q" if "q" not in case["names"] else "qq0"
+        eq = f"d/dt * {lhs} = {text} - {lhs}" if case["notation"] == 0 else f"{lhs}' = {text} - {lhs}"
+        variables = {lhs: _decl(q0, vtype="output") if want0.shape else "output(0.25)", vn: _decl(v), An: _decl(A),
+                     cn: c, jn: _decl(j, "int32"), kn: _decl(k, "int32")}
+        try:
+            with warnings.catch_warnings():
+                warnings.simplefilter("ignore")
+                op = OperatorTemplate(name="op0", path=None, equations=[eq], variables=variables)
+                circ = CircuitTemplate(name="net", path=None, nodes={"p0": NodeTemplate(name="nt0", path=None, operators=[op])})
+                func, args, names, svm = circ.get_run_func("pv_c05i", step_size=0.01, vectorize=False, in_place=False,
+                                                           verbose=False, clear=True, float_precision="float64",
+                                                           file_name="pv_gen_c05i")
+                y = np.asarray(args[1], dtype=float)
+                got = np.array(func(0, y.copy(), np.zeros_like(y), *args[3:]), dtype=float).ravel()
+        except HarnessError:
+            raise
+        except Exception as e:
+            res.violate(exc_bucket(f"compile-or-call-raises:{case['form']}", e), f"{eq} (j={j}, k={k}, {n=}, {m=}): {short_exc(e)}")
+            return res
+        want = (want0 - 0.25).ravel()
+        if got.shape != want.shape or np.max(np.abs(got - want)) > 1e-12:
+            res.violate(f"wrong-value:codegen:{case['form']}", f"{eq} (j={j}, k={k}): generated function gives {got.tolist()}, "
+                                                               f"NumPy indexing says {want.tolist()}")
+            return res
+        if lit or kind == "range":
+            return res
+        # the index parameters are arguments of the generated function: call it with other index values
+        j2, k2 = case["j2"], case["k2"]
+        a2 = list(args)
+        used = {}
+        for nm, val in ((f"p0/op0/{jn}", j2), (f"p0/op0/{kn}", k2)):
+            if nm in names:
+                i = list(names).index(nm)
+                a2[i] = np.asarray(val, dtype=np.asarray(args[i]).dtype).reshape(np.shape(args[i]))
+                used[nm] = val
+        jj = j2 if f"p0/op0/{jn}" in used else j
+        kk = k2 if f"p0/op0/{kn}" in used else k
+        try:
+            got2 = np.array(func(0, y.copy(), np.zeros_like(y), *a2[3:]), dtype=float).ravel()
+        except Exception as e:
+            res.violate(exc_bucket(f"call-raises:{case['form']}", e), f"{eq} called with {used}: {short_exc(e)}")
+            return res
+        want2 = (np.asarray(meaning(v, A, jj, kk, c), dtype=float) - 0.25).ravel()
+        res.labels.append("index_argument_changed")
+        if got2.shape != want2.shape or np.max(np.abs(got2 - want2)) > 1e-12:
+            res.violate(f"wrong-value:codegen-index-argument:{case['form']}",
+                        f"{eq}: called with index arguments {used} the generated function gives {got2.tolist()}, NumPy "
+                        f"indexing says {want2.tolist()}")
+        return res
+
+    def sample(self, case):
+        return {k_: case[k_] for k_ in ("form", "n", "m", "j", "k", "j2", "k2", "literal", "path", "names")}
+
+
+ARMS = [EvalNodeArm(), CodegenArm(), IndexArm()]
